@@ -685,3 +685,28 @@ func init() {
 			planItem{register(worldScenario("C05", specFaultThenWrites, chainOracle)), 2, 3})
 	}
 }
+
+// C16: one idempotency key carried by two DIFFERENT requests of a kind (a client's mistake the engine does not refuse: the second
+// is answered from the first one's entry). Whatever is published then must still describe an entry of the log.
+var (
+	specEventsKeyOtherRevert = worldSpec{Name: "events-key-reused-other-revert",
+		Seed: seedTxs(ledger.Postings{post("world", "a", 100)}, ledger.Postings{post("world", "b", 50)}),
+		Gen1: []reqSpec{{Name: "r0", Kind: "revert", TxID: 0, IK: "k"}, {Name: "r1", Kind: "revert", TxID: 1, IK: "k"}}}
+	specEventsKeyOtherMeta = worldSpec{Name: "events-key-reused-other-meta", Seed: seedA100,
+		Gen1: []reqSpec{{Name: "m1", Kind: "savemeta", TargetType: ledger.MetaTargetTypeAccount, TargetID: "c", IK: "k"},
+			{Name: "m2", Kind: "savemeta", TargetType: ledger.MetaTargetTypeAccount, TargetID: "d", IK: "k"},
+			{Name: "d1", Kind: "delmeta", TargetType: ledger.MetaTargetTypeAccount, TargetID: "c", Key: "d1", IK: "k2"},
+			{Name: "d2", Kind: "delmeta", TargetType: ledger.MetaTargetTypeAccount, TargetID: "d", Key: "d2", IK: "k2"}}}
+	specEventsKeyOtherCreate = worldSpec{Name: "events-key-reused-other-create", Seed: seedA100,
+		Gen1: []reqSpec{{Name: "c1", Kind: "create", Script: sendScript(5, "@world", "@b"), IK: "k"}, {Name: "c2", Kind: "create", Script: sendScript(7, "@world", "@c"), IK: "k"}}}
+)
+
+func init() {
+	b16 := plans["C16"]
+	plans["C16"] = func() []planItem {
+		return append(b16(),
+			planItem{register(worldScenario("C16", specEventsKeyOtherRevert, eventOracle)), 2, 3},
+			planItem{register(worldScenario("C16", specEventsKeyOtherMeta, eventOracle)), 1, 2},
+			planItem{register(worldScenario("C16", specEventsKeyOtherCreate, eventOracle)), 2, 3})
+	}
+}
